@@ -47,8 +47,23 @@ def gen_attr(rng, used, types=ATTR_TYPES, messy_ints=True):
     return {"k": "attr", "name": name, "type": ty, "values": vals}
 
 
-def gen_spec(rng, max_depth=3, groups=True, mixed=True, attrs=True, types=NUM_TYPES, maxvars=4, rank_max=3):
-    """abstract dataset: dims at any level, same short names in different groups, named/anonymous/mixed Dims"""
+QUOTED_NAMES = ["a.b", "lat.1", "v.x.y"]     # variable names that pydap stores quoted (`.` -> %2E)
+
+
+def dap_quote(name):
+    """the stored form of a variable name (only `.` occurs in the generator's alphabet)"""
+    return name.replace(".", "%2E")
+
+
+def dap_unquote(name):
+    return name.replace("%2E", ".")
+
+
+def gen_spec(rng, max_depth=3, groups=True, mixed=True, attrs=True, types=NUM_TYPES, maxvars=4, rank_max=3,
+             var_names=None):
+    """abstract dataset: dims at any level, same short names in different groups, named/anonymous/mixed Dims;
+    `var_names`: alphabet of variable names (default NAMES)"""
+    var_names = var_names or NAMES
     all_dims = []   # fq names declared so far (any scope)
     all_vars = []
 
@@ -67,7 +82,7 @@ def gen_spec(rng, max_depth=3, groups=True, mixed=True, attrs=True, types=NUM_TY
             all_dims.append(R.fqn(path, name))
         body = []
         for _ in range(rng.randint(0 if depth else 1, maxvars)):
-            name = rng.choice(NAMES)
+            name = rng.choice(var_names)
             if name in used_names:
                 continue
             used_names.add(name)
